@@ -173,6 +173,12 @@ fn judge(c: &mut Case<'_>, st: &Stage, before: &Snapshot, attempt: &Attempt, new
     if fault_name.starts_with("good-checksum") && !succeeded {
         return Err(c.fail(fault_sig, format!("{fault_name}: an upload of {} bytes carrying its correct checksum was not accepted: {:?}", new_content.len(), attempt.response.as_ref().map(|r| r.as_ref().map(|w| (w.status, crate::engine::truncate(&w.body_text(), 200)))))));
     }
+    // "rejected (checksum mismatch, signature error in the middle of a chunk-signed body)": an upload with a wrong
+    // checksum, with a chunk whose signature does not verify (the terminating chunk included) or without its terminating
+    // chunk is not a successful upload, whatever the backend had already received when the fault became visible
+    if succeeded && (fault_name.starts_with("bad-checksum") || fault_name == "chunk-signature" || fault_name == "chunk-final-missing") {
+        return Err(c.fail(format!("rejected-upload-accepted:{}", fault_name.split(':').next().unwrap_or("")), format!("{fault_name}: the upload was reported successful (status {:?}); object now reads back {:?} bytes, previous state {:?} bytes", attempt.response.as_ref().and_then(|r| r.as_ref().ok().map(|w| w.status)), got.as_ref().map(Vec::len), st.previous.as_ref().map(Vec::len))));
+    }
     if succeeded {
         if got.as_deref() != Some(new_content) {
             return Err(c.fail(format!("successful-write-not-visible:{fault_name}"), format!("write reported success but the object reads back as {:?} bytes (expected {})", got.map(|g| g.len()), new_content.len())));
@@ -330,22 +336,28 @@ fn chunked_writer(c: &mut Case<'_>, present: bool, n_chunks: usize, bad: usize) 
     };
     let seed = signer.sign_header(&mut req, STREAMING, &["content-encoding".into(), "x-amz-decoded-content-length".into(), "content-length".into()]);
     let mut chunks = sigv4::sign_chunks(&signer, &seed, &all);
-    let faulty = bad < chunks.len();
-    if faulty {
+    let final_missing = bad == FINAL_MISSING;
+    let faulty = bad < chunks.len() || final_missing;
+    if final_missing {
+        // the upload stops after its last data chunk: the signed zero-length chunk never arrives
+        chunks.pop();
+    } else if faulty {
         chunks[bad].signature = "f".repeat(64);
     }
     let before = snapshot(&st.env.sandbox);
     let steps: Vec<Step> = chunks.iter().map(|ch| Step::Data(Bytes::from(sigv4::encode_chunk(ch)))).collect();
     let headers: Vec<(String, String)> = req.headers.iter().filter(|(n, _)| n != "host").cloned().collect();
     let attempt = run_put(&st.env.svc, headers, steps, None, &req.path);
-    c.label(if faulty { "fault:chunk-signature" } else { "fault:none-chunked" });
+    c.label(if final_missing { "fault:chunk-final-missing" } else if faulty { "fault:chunk-signature" } else { "fault:none-chunked" });
     c.label(format!("previous:{}", if present { "present" } else { "absent" }));
     if faulty {
         c.nontrivial();
     }
     c.fp(&("chunked", present, n_chunks, bad));
-    judge(c, &st, &before, &attempt, &content, if faulty { "chunk-signature" } else { "none-chunked" }, "partial-write:chunk-signature")
+    judge(c, &st, &before, &attempt, &content, if final_missing { "chunk-final-missing" } else if faulty { "chunk-signature" } else { "none-chunked" }, "partial-write:chunk-signature")
 }
+
+const FINAL_MISSING: usize = usize::MAX - 1;
 
 fn concurrent(c: &mut Case<'_>, multi_thread: bool) -> CaseResult {
     let present = c.t.bool();
@@ -516,7 +528,7 @@ fn concurrent_burst(c: &mut Case<'_>) -> CaseResult {
 }
 
 pub fn run(r: &mut Runner) {
-    r.rule = "uploads of 1..8 frames x previous state {absent, present} x fault {none, body error at every frame k, request future dropped after every number of polls p up to completion, wrong checksum for each algorithm the backend checks (and the correct one, which must be accepted under any framing), corrupted chunk signature in chunk k of a chunk-signed upload, a key that cannot be committed because it names an existing directory or lies below an existing object (alone and abandoned after every number of polls)}, each on its own runtime which is dropped to let the blocking pool quiesce; then GET must return the previous content (or nothing) unless the upload was reported successful, and the directory tree must equal the snapshot taken before. A crash with 1..5 writes in flight (request futures leaked after p polls) followed by a restart on the same root: no temporary file survives, the object is intact. Concurrent writers (2..8, distinct contents) interleaved by harness-owned Pending schedules on a current-thread runtime, and on a multi-thread runtime (also in bursts of 120 rounds of barrier-released writers on 8 worker threads): final content is exactly one successful writer's bytes, no extra file. Non-trivial: any fault or >=2 writers; distinct by (fault, position, previous state, frame count).".into();
+    r.rule = "uploads of 1..8 frames x previous state {absent, present} x fault {none, body error at every frame k, request future dropped after every number of polls p up to completion, wrong checksum for each algorithm the backend checks (and the correct one, which must be accepted under any framing), corrupted chunk signature in chunk k of a chunk-signed upload (the terminating chunk included; also the terminating chunk missing - such uploads, like those with a wrong checksum, must not be reported successful), a key that cannot be committed because it names an existing directory or lies below an existing object (alone and abandoned after every number of polls)}, each on its own runtime which is dropped to let the blocking pool quiesce; then GET must return the previous content (or nothing) unless the upload was reported successful, and the directory tree must equal the snapshot taken before. A crash with 1..5 writes in flight (request futures leaked after p polls) followed by a restart on the same root: no temporary file survives, the object is intact. Concurrent writers (2..8, distinct contents) interleaved by harness-owned Pending schedules on a current-thread runtime, and on a multi-thread runtime (also in bursts of 120 rounds of barrier-released writers on 8 worker threads): final content is exactly one successful writer's bytes, no extra file. Non-trivial: any fault or >=2 writers; distinct by (fault, position, previous state, frame count).".into();
     r.assumptions = vec![
         "dropping a tokio runtime waits for blocking-pool work that has already started".into(),
         "true-parallel interleavings inside the kernel / blocking pool are sampled, not owned, in the multi-thread mode".into(),
@@ -562,6 +574,7 @@ pub fn run(r: &mut Runner) {
         let bad = (idx % (max_chunks + 2)) as usize; // >= n+1 means no fault
         chunked_writer(c, idx % 2 == 0, n, bad)
     });
+    r.exhaustive("chunk-final-missing", max_chunks * 2, |idx, c| chunked_writer(c, idx % 2 == 0, 1 + (idx / 2) as usize, FINAL_MISSING));
     r.search("random-faults", r.scale(300, 10_000), 64, |c| {
         let present = c.t.bool();
         let n = 1 + c.t.below(8);
